@@ -32,6 +32,7 @@ TRUSTED_BASE = [
     "Coq standard library only (QArith, Qcanon, List, Permutation, String, Lia, Lqa/Psatz, ZArith)",
     "hand-written Gallina model of lymph (coq/theories): theorems are about the model",
     "correspondence harness (harness/*.py): generators, Coq term printer/parser, tolerance 1e-9, exception-to-enum map",
+    "source translator harness/translate.py (Python ast -> Gallina, fail-closed) for comp_transition_tensor, compute_confusion_matrix and compute_encoding's element_map (C02, C05, C06, C14)",
     "not modelled: IEEE rounding / BLAS summation order, pandas internals, Python hash(), numpy bit generator",
 ]
 
@@ -538,6 +539,9 @@ class Ctx:
         discharged = len([t for t in ths if set(t["assumptions"]) <= ALLOWED_AXIOMS]) if audit.get("ok") else 0
         if audit.get("ok"):
             discharged = obligations
+        tie = self.extra.get("translator_tie", [])
+        obligations += len(tie)
+        discharged += sum(1 for r in tie if r["ok"])
         ev = {
             "property_id": self.pid,
             "tier": self.tier,
@@ -617,6 +621,51 @@ def part_a(ctx: Ctx) -> bool:
                           {"part": "A", "broken": "coqchk"}, found_input=False)
             return False
     return True
+
+
+# --------------------------------------------------------------------------
+# part T: the table-like core re-translated from the source on every run (harness/translate.py)
+# --------------------------------------------------------------------------
+TRANSLATOR_TIE = {"C05": ["tensor"], "C14": ["tensor"], "C06": ["confusion"], "C02": ["element"]}
+
+
+def translator_tie(ctx: "Ctx") -> None:
+    """Regenerate Gallina definitions from the current Python source and have Coq prove them equal to the model for all
+    arguments.  A broken obligation (untranslatable source, or the equality no longer provable) is reported as a
+    violation ending in no-failing-input-found unless the correspondence of this run already produced a failing input."""
+    from . import translate
+    pieces = TRANSLATOR_TIE.get(ctx.pid, [])
+    if not pieces:
+        return
+    results = []
+    ctx.work.mkdir(parents=True, exist_ok=True)
+    for piece in pieces:
+        _, lemma, where = translate.PIECES[piece]
+        rec = {"piece": piece, "source": where, "lemma": lemma, "ok": False}
+        try:
+            text = translate.generate(piece)
+        except translate.Untranslatable as e:
+            rec["reason"] = f"source not in the translatable fragment: {e}"
+        except (SyntaxError, OSError) as e:
+            rec["reason"] = f"source unreadable: {e!r}"
+        else:
+            f = ctx.work / f"Gen_{piece}.v"
+            f.write_text(text)
+            r = subprocess.run(["timeout", "300", "coqc", "-Q", str(COQ / "theories"), "LymphModel", "-R", str(ctx.work), "", str(f)],
+                               cwd=ctx.work, capture_output=True, text=True)
+            out = r.stdout + r.stderr
+            rec["ok"] = r.returncode == 0 and "Closed under the global context" in out
+            if not rec["ok"]:
+                rec["reason"] = "Coq rejects the equality with the model: " + out[-600:]
+                rec["generated"] = text[-1500:]
+        results.append(rec)
+    ctx.extra["translator_tie"] = results
+    broken = [r for r in results if not r["ok"]]
+    if broken and not any(v["found_input"] for v in ctx.violations):
+        ctx.violation("the model is no longer provably equal to the translated source (" + ", ".join(r["source"] for r in broken) + ")",
+                      {"broken": [f"generated lemma {r['lemma']} ({r['source']}): {r.get('reason', '')}" for r in broken],
+                       "note": "the correspondence of this run found no input on which the property fails"},
+                      {"part": "T", "broken": [r["piece"] for r in broken]}, found_input=False)
 
 
 # --------------------------------------------------------------------------
